@@ -366,6 +366,7 @@ def normalize_link_file(src, dst):
                      "panic": "panic" in r}
             elif k == "sweep":
                 e = {"k": "sweep", "variants": r.get("variants", 0), "bad_delivered": r.get("bad_delivered", 0),
+                     "follow_lost": r.get("follow_lost", 0), "follow_altered": r.get("follow_altered", 0),
                      "what": r.get("what", "")}
             else:
                 e = {"k": k}
